@@ -442,6 +442,39 @@ Section Shared.
         * intros l [<-|Hl]; [|apply L4; auto]. simpl. intros Hc Hnd. apply OK. split; auto.
   Qed.
 
+  (** * F. every landing is in a file the appender itself made current: the one made at construction or
+        the one of an elected rotation (the "file being replaced" of the overlap clause is one of these) *)
+  Definition opened (ro : list (nat * Z * Z)) (f : string) : Prop :=
+    f = join_date c t0 \/ exists i n u, In (i, n, u) ro /\ f = join_date c u.
+
+  Lemma opened_cons r ro f : opened ro f -> opened (r :: ro) f.
+  Proof. intros [E|[i [n [u [Hin E]]]]]; [left; auto|right; exists i, n, u; split; [right|]; auto]. Qed.
+
+  Definition InvO (s : state) : Prop :=
+    opened (rots s) (cur s) /\
+    (forall i t b g, pcs s i = Some (PRefresh t b g) -> exists n, In (i, n, t) (rots s)) /\
+    (forall i t b f g, pcs s i = Some (PAppend t b f g) -> opened (rots s) f) /\
+    (forall l, In l (lands s) -> opened (rots s) (l_file l)).
+
+  Lemma invO : forall s, reach s -> InvO s.
+  Proof.
+    induction 1 as [|s e R IH V].
+    - unfold s0, init. destruct (create _ _ _). unfold InvO, opened; simpl.
+      split; [left; reflexivity|]. split; [discriminate|]. split; [discriminate|tauto].
+    - pose proof IH as IH'. destruct IH' as [O1 [O2 [O3 O4]]].
+      step_cases s; try exact IH; unfold InvO; simpl; rf.
+      all: (split; [|split; [|split]]).
+      all: try assumption.
+      all: try (intros j t' b' g' Hj; updc Hj j i; eauto; fail).
+      all: try (intros j t' b' f' g' Hj; updc Hj j i; eauto; fail).
+      all: try (apply opened_cons; assumption).
+      + intros j t' b' g' Hj. updc Hj j i; [exists n; left; reflexivity|]. destruct (O2 _ _ _ _ Hj) as [m Hm]. exists m. right; auto.
+      + intros j t' b' f' g' Hj. updc Hj j i. apply opened_cons. eauto.
+      + intros l Hl. apply opened_cons. auto.
+      + destruct (O2 _ _ _ _ Hpc) as [m Hm]. right. exists i, m, t. auto.
+      + intros l [<-|Hl]; simpl; eauto.
+  Qed.
+
   (** * The theorems, for every event list *)
   Lemma sorted_nodup (l : list (nat * Z * Z)) :
     StronglySorted (fun a b => from_of b < from_of a) l -> NoDup (map from_of l).
@@ -514,5 +547,39 @@ Section Shared.
                 (created r < created f)%N.
   Proof.
     intros evs t m V Hm. apply (refresh_removes_oldest c _ t m Hm). apply (shared_never_lost evs V).
+  Qed.
+  (** the overlap clause: whatever the schedule, a buffer lands in a file the appender itself opened -
+      the one made at construction or the one of an elected rotation *)
+  Theorem shared_lands_in_opened_file : forall evs, Forall valid_ev evs ->
+    forall l, In l (lands (run c s0 evs)) -> opened (rots (run c s0 evs)) (l_file l).
+  Proof. intros evs V. apply (invO _ (reach_run evs V)). Qed.
+
+  (** a thread that saw boundary [n] reached and attempts the compare_exchange leaves [n] rotated: by itself
+      or by the earlier winner - together with NoDup above: exactly one rotation per boundary *)
+  Theorem shared_cas_elects : forall evs, Forall valid_ev evs ->
+    forall i t b n g, pcs (run c s0 evs) i = Some (PCas t b n g) ->
+    exists j u, In (j, n, u) (rots (step c (run c s0 evs) (Step i))).
+  Proof.
+    intros evs V i t b n g Hp. destruct (invN _ (reach_run evs V)) as [_ [_ [_ [_ [N5 _]]]]].
+    destruct (N5 _ _ _ _ _ Hp) as [C1 [C2 C3]]. simpl. rewrite Hp. destruct (next (run c s0 evs) =? n) eqn:E; simpl.
+    - exists i, t. left; reflexivity.
+    - apply Z.eqb_neq in E. apply C3. lia.
+  Qed.
+
+  (** ... and a thread whose clock has not reached next_date goes straight to the read lock: no
+      compare_exchange, no rotation, nothing created or removed *)
+  Theorem shared_backwards_step : forall evs, Forall valid_ev evs ->
+    forall i t b g u, pcs (run c s0 evs) i = Some (PLoad t b g) ->
+      (k = Never \/ (In u (decided (run c s0 evs)) /\ t <= u)) ->
+      rots (step c (run c s0 evs) (Step i)) = rots (run c s0 evs) /\
+      fails (step c (run c s0 evs) (Step i)) = fails (run c s0 evs) /\
+      next (step c (run c s0 evs) (Step i)) = next (run c s0 evs) /\
+      cur (step c (run c s0 evs) (Step i)) = cur (run c s0 evs) /\
+      dir (step c (run c s0 evs) (Step i)) = dir (run c s0 evs) /\
+      pcs (step c (run c s0 evs) (Step i)) i = Some (PRead t b g).
+  Proof.
+    intros evs V i t b g u Hp Hu.
+    destruct (shared_no_rotation_backwards evs V) as [_ [_ H]]. rewrite (H i t b g u Hp Hu). simpl.
+    repeat split; auto. apply upd_same.
   Qed.
 End Shared.
